@@ -13,7 +13,7 @@ def punct(lm):
 
 def numbers(lm):
     return {
-        "NUM": lm.custom("<n>", ["1", "25", "300", "0", "7", "12"], "NUM"),
+        "NUM": lm.custom("<n>", ["1", "25", "300", "0", "7", "007"], "NUM"),
         "NEG": lm.custom("<-n>", ["-1", "-25", "-300"], "NUM"),
         "BIG": lm.custom("<2^63>", ["9223372036854775807", "9223372036854775808", "18446744073709551616"], "NUM"),
         "NEGBIG": lm.custom("<-2^63>", ["-9223372036854775808", "-9223372036854775807", "-18446744073709551616"], "NUM"),
